@@ -285,7 +285,23 @@ func liveMain(args []string) int {
 				c.submit(ln, TakeSnapshot(0), "TakeSnapshot")
 			case 3:
 				if l := c.leader(); l != nil {
-					c.submit(l, TransferLeadership(0, 500*time.Millisecond), "TransferLeadership")
+					if rnd.Intn(2) == 0 {
+						c.submit(l, TransferLeadership(0, 500*time.Millisecond), "TransferLeadership")
+					} else if id != l.id {
+						// a transfer whose target is cut off right after it was told to time out: it acknowledges,
+						// campaigns in vain, and the leader's wait for the new term runs out
+						go func(t uint64) {
+							time.Sleep(4 * time.Millisecond)
+							c.net.mu.Lock()
+							c.net.cut[addrOf(t)] = true
+							c.net.mu.Unlock()
+							time.Sleep(450 * time.Millisecond)
+							c.net.mu.Lock()
+							delete(c.net.cut, addrOf(t))
+							c.net.mu.Unlock()
+						}(id)
+						c.submit(l, TransferLeadership(id, 900*time.Millisecond), "TransferLeadership(target)")
+					}
 				}
 			case 4:
 				if l := c.leader(); l != nil {
